@@ -930,15 +930,16 @@ fn c04_leap_rule(lo: i64, hi: i64, out: &mut Out) {
     if w > ws0 { w -= 29.53; }
     let mut nm: Vec<f64> = vec![];
     for i in 0..16 { nm.push(ShouXingUtil::calc_shuo(w + 29.5306 * i as f64)); }
-    // index of the lunation containing ws1
-    let mut last = 0usize;
-    for i in 0..15 { if nm[i] <= ws1 && ws1 < nm[i + 1] { last = i; } }
-    // major terms (zhongqi = even indices) of the sui
+    // the rule, evaluated by the Verus-verified checker of spec/leaprule.rs on integral day numbers
+    let nmi: Vec<i64> = nm.iter().map(|x| *x as i64).collect();
     let zq: Vec<f64> = (0..=13).map(|j| SolarTerm::from_index(yi, 2 * j).get_cursory_julian_day()).collect();
-    let has_zq = |i: usize| zq.iter().any(|&z| nm[i] <= z && z < nm[i + 1]);
-    // numbering: lunation 0 is month 11 (contains ws0). 13 lunations between the solstice months => the first one
-    // without a major term is leap.
-    let leap_pos: Option<usize> = if last == 13 { (1..13).find(|&i| !has_zq(i)) } else { None };
+    let zqi: Vec<i64> = zq.iter().map(|x| *x as i64).collect();
+    if nm.iter().any(|x| x.fract() != 0.0) || zq.iter().any(|x| x.fract() != 0.0) || ws1.fract() != 0.0 { out.fail(format!("integral:{}", y), "new-moon / term day is not an integral day number".into()); continue; }
+    let lastl = sp::last_lunation(&nmi, ws1 as i64);
+    if lastl < 0 { out.fail(format!("solstice_month:{}", y), "no lunation contains the next winter solstice".into()); continue; }
+    let last = lastl as usize;
+    let lp = sp::leap_position(&nmi, &zqi, lastl);
+    let leap_pos: Option<usize> = if lp >= 0 { Some(lp as usize) } else { None };
     let mut num: Vec<(i64, bool)> = vec![];   // (month number, leap) for lunations 0..=last
     let mut cur = 11i64;
     for i in 0..=last {
